@@ -180,6 +180,53 @@ def printAmount (dcDefault : Bool) (sym : Text) (ci : CommInfo) (q : Rat) (amtPr
   if st.suffixed then num ++ (if st.separated then [' '] else []) ++ qualified sym
   else qualified sym ++ (if st.separated then [' '] else []) ++ num
 
+/-- `c == '"'` on the first character. -/
+def startsQuote : Text → Bool
+  | '"' :: _ => true
+  | _ => false
+
+/-- commodity_t::print with `elide_quotes` (commodity.cc 353-366; report_t::fn_justify, hence every
+    default report column, passes AMOUNT_PRINT_ELIDE_COMMODITY_QUOTES): a quoted symbol of a SEPARATED
+    commodity is shown without its quotes unless it contains a space or consists of digits only. -/
+def elidedSymbol (separated : Bool) (sym : Text) : Text :=
+  let qs := qualified sym
+  if separated ∧ startsQuote qs ∧ ¬ qs.contains ' ' then
+    let sub := (qs.drop 1).dropLast
+    if sub.all isDigit then qs else sub
+  else qs
+
+/-- amount_t::print with AMOUNT_PRINT_ELIDE_COMMODITY_QUOTES: as `printAmount`, the symbol spelled by
+    `elidedSymbol`. -/
+def printAmountElided (dcDefault : Bool) (sym : Text) (ci : CommInfo) (q : Rat) (amtPrec : Nat)
+    (keep : Bool) : Text :=
+  let hasComm := sym ≠ []
+  let st : Style := if hasComm then ci.style else {}
+  let cp := if hasComm then ci.prec else 0
+  let n := fmtNum q (displayPrec hasComm cp amtPrec keep) (some cp)
+  let num := n.render st.thousands (dcDefault || st.decimalComma)
+  if st.suffixed then num ++ (if st.separated then [' '] else []) ++ elidedSymbol st.separated sym
+  else elidedSymbol st.separated sym ++ (if st.separated then [' '] else []) ++ num
+
+/-- amount_t::is_zero (amount.cc 832-865): exact when the amount keeps its precision or has no
+    more decimals than its commodity displays; otherwise "does it print as zero": a value above 1
+    does not, anything else is printed at the commodity's precision (`stream_out_mpq` without
+    trimming) and searched for a character other than `0`, `.`, `-`. -/
+def isZeroAmt (hasComm : Bool) (commPrec : Nat) (q : Rat) (amtPrec : Nat) (keep : Bool) : Bool :=
+  if hasComm then
+    if keep ∨ amtPrec ≤ commPrec then decide (q = 0)
+    else if q = 0 then true
+    else if q.num > (q.den : Int) then false
+    else (fmtNum q commPrec none).plain.all (fun c => c = '0' || c = '.' || c = '-')
+  else decide (q = 0)
+
+/-- value_t::print, AMOUNT case (value.cc 2032-2041) as called by `justify(...)`, hence by the
+    default register and balance reports: a bare `0` for an amount that is_zero, amount_t::print
+    (with quote elision) otherwise. -/
+def showAmount (dcDefault : Bool) (sym : Text) (ci : CommInfo) (q : Rat) (amtPrec : Nat)
+    (keep : Bool) : Text :=
+  if isZeroAmt (sym ≠ []) ci.prec q amtPrec keep then ['0']
+  else printAmountElided dcDefault sym ci q amtPrec keep
+
 /-! ## reading -/
 
 inductive PErr
@@ -231,11 +278,6 @@ def readBare : Nat → Text → Except PErr (Text × Text)
       match readBare n s with
       | .ok r => .ok (c :: r.1, r.2)
       | .error e => .error e
-
-/-- `c == '"'` on the peeked character. -/
-def startsQuote : Text → Bool
-  | '"' :: _ => true
-  | _ => false
 
 /-- commodity_t::parse_symbol(std::istream&, string&) (commodity.cc 295-331):
     symbol and unread rest; an empty symbol rewinds the stream. -/
